@@ -25,6 +25,10 @@ def gen(tier, seed):
                 evs.append({"e": "reply", "h": None if r.chance(1, 4) else max(0, min(2**32 - 1, base + r.below(9) - 3))})
             else:
                 evs += [{"e": "tick", "ms": 59999}, {"e": "tick", "ms": 1}]
+            if r.chance(1, 8):
+                # concurrent notifications under lock contention, higher one first / last / repeated
+                hs = [max(0, min(2**32 - 1, base + r.below(9) - 3)) for _ in range(2 + r.below(2))]
+                evs.append({"e": "burst", "hs": hs})
         cases.append({"events": evs})
     return cases
 
@@ -32,7 +36,8 @@ def term(c, o):
     steps = []
     for ev, st in zip(c["events"], o["steps"]):
         k = ev["e"]
-        e = ("(BvReply %s)" % coq_opt(ev["h"], str)) if k == "reply" else ("(BvNotify %d)" % ev["h"]) if k == "notify" else "(BvTick %d)" % ev["ms"]
+        # a burst of concurrent notifications tells the watcher max(hs): whatever the order inside, the height must end at the running maximum
+        e = ("(BvReply %s)" % coq_opt(ev["h"], str)) if k == "reply" else ("(BvNotify %d)" % ev["h"]) if k == "notify" else ("(BvNotify %d)" % max(ev["hs"])) if k == "burst" else "(BvTick %d)" % ev["ms"]
         steps.append("(%s, %d, %d, %s)" % (e, st["height"] or 0, st["calls"], coq_bool(st["stopped"])))
     return coq_list(steps)
 
@@ -40,7 +45,7 @@ def run(tier, seed):
     o = Outcome("C20", tier, seed)
     o.rule = ("event lists for the real BlockWatcher (paused clock): startup query answered/failing after optional early notifications, then random interleavings of block_added "
               "notifications (fresh, stale, repeated, near u32::MAX), poll replies (successful with arbitrary heights, failing) and clock ticks around the 60 s poll deadline "
-              "(59999 ms then 1 ms). Non-trivial: at least one poll reply after startup and one notification; distinct = distinct event list")
+              "(59999 ms then 1 ms), and bursts of 2-3 notifications delivered concurrently while the height mutex is contended. Non-trivial: at least one poll reply after startup and one notification; distinct = distinct event list")
     o.assumptions = ["tokio's paused clock stands for real time; the delta of the catch-up bound (RPC latency) is runtime and not modelled"]
     o.proof = proof_stage("C20", ["theories/Props/C20.vo", "theories/Check/BlocksCheck.vo"])
     ok, log, binary = harness_build("dev")
